@@ -67,6 +67,15 @@ static void po_truth(FILE *out, int dfd, const char *path, int nofollow) {
   res[l] = 0;
   fprintf(out, " %s%s%s", res, (l == 1 && res[0] == '/') ? "" : "/", lastc);
 }
+// "@k@" in a pathname stands for the number of the k-th directory descriptor of this program
+static const char *po_subst(const char *t) {
+  static char bufs[4][8200]; static int nb; char *o = bufs[nb++ & 3]; size_t n = 0;
+  for (const char *q = t; *q && n < 8100; ) {
+    if (q[0] == '@' && q[1] >= '0' && q[1] <= '9' && q[2] == '@') { n += snprintf(o + n, 16, "%d", po_slots[(q[1] - '0') & 15]); q += 3; }
+    else o[n++] = *q++;
+  }
+  o[n] = 0; return o;
+}
 static int pathops(const char *script, const char *outp) {
   FILE *in = fopen(script, "r"), *out = fopen(outp, "w");
   if (!in || !out) return 97;
@@ -84,6 +93,7 @@ static int pathops(const char *script, const char *outp) {
       unsigned long a[6] = {0, 0, 0, 0, 0, 0}; int ns = 0; static char mk[64];
       for (int i = 0; i < 6 && 3 + i < nt; i++) {
         const char *t = tok[3 + i];
+        if (t[0] == 'p' || t[0] == 'q' || t[0] == 'w') { static char tb[3][8300]; static int tn; char *tt = tb[tn++ % 3]; tt[0] = t[0]; tt[1] = ':'; strncpy(tt + 2, po_subst(t + 2), 8200); t = tt; }
         if (t[0] == 'p') { strncpy(strs[ns], strcmp(t + 2, "-") ? t + 2 : "", sizeof strs[0] - 1); a[i] = (unsigned long)strs[ns++]; }
         else if (t[0] == 'q') {
           // the same, with the string lying across a page boundary (half of it on either side)
@@ -112,7 +122,7 @@ static int pathops(const char *script, const char *outp) {
     } else if (!strcmp(tok[0], "t")) {
       // t ID DSPEC PATH : the kernel's resolution, following and not following the last component
       int dfd = (int)po_dspec(tok[2]);
-      const char *pth = strcmp(tok[3], "-") ? tok[3] : "";
+      const char *pth = strcmp(tok[3], "-") ? po_subst(tok[3]) : "";
       fprintf(out, "t %s", tok[1]);
       po_truth(out, dfd, pth, 0); po_truth(out, dfd, pth, 1);
       fprintf(out, "\n");
@@ -457,6 +467,20 @@ int main(int argc, char **argv) {
     }
     n += snprintf(buf + n, sizeof buf - n, "]\n");
     write(1, buf, n);
+    _exit(0);
+  } else if (!strcmp(c, "fdsenv")) {
+    // as "fds", started as the interpreter of a script: the report goes to the file named by VERIF_OUT
+    static char buf[1 << 16]; int n = 0; n += snprintf(buf + n, sizeof buf - n, "["); int first = 1;
+    for (int fd = 0; fd < 1024; fd++) {
+      struct stat st; if (fstat(fd, &st) != 0) continue;
+      int fl = fcntl(fd, F_GETFL), fdfl = fcntl(fd, F_GETFD);
+      n += snprintf(buf + n, sizeof buf - n, "%s[%d,%lu,%lu,%d,%d]", first ? "" : ",", fd, (unsigned long)st.st_dev, (unsigned long)st.st_ino, fl & 3, fdfl & 1);
+      first = 0;
+    }
+    n += snprintf(buf + n, sizeof buf - n, "]\n");
+    const char *outp = getenv("VERIF_OUT"); if (!outp) _exit(97);
+    int out = open(outp, O_CREAT | O_WRONLY | O_TRUNC, 0600); if (out < 0) _exit(98);
+    write(out, buf, n); close(out);
     _exit(0);
   } else if (!strcmp(c, "fds")) {
     // descriptor table of this process: [[fd, dev, ino, accmode, cloexec], ...] written to the file argv[2]
